@@ -185,9 +185,10 @@ pub fn cmd_snapshot_script(a: &[&str]) -> String {
                     out.push(format!("pre={:?}", r.is_ok()));
                 }
             } else if let Some(script) = arg.strip_prefix("call=") {
+                let repeat = script.split(';').any(|s| s == "REPEAT");
                 let obs: Vec<(usize, u16, Option<Vec<i64>>)> = script
                     .split(';')
-                    .filter(|s| !s.is_empty())
+                    .filter(|s| !s.is_empty() && *s != "REPEAT")
                     .map(|o| {
                         let mut p = o.split(':');
                         let mut lv = p.next().unwrap().split('=');
@@ -209,7 +210,10 @@ pub fn cmd_snapshot_script(a: &[&str]) -> String {
                 set_observer(Some(Box::new(move |acc| {
                     if let Access::Load { addr, .. } = acc {
                         if k >= nobs {
-                            misuse2.set(misuse2.get() + 1);
+                            // REPEAT: memory stays as the last observation left it, so the reader keeps observing the same values
+                            if !repeat {
+                                misuse2.set(misuse2.get() + 1);
+                            }
                             return;
                         }
                         let (off, val, ref words) = obs2[k];
